@@ -82,6 +82,7 @@ let parse_op s =
   | 'M', [_; m], _ -> Some (OMethod (meth m))
   | 'K', [_; k], _ -> Some (OKey (key k))
   | 'F', _, _ -> Some OFrame
+  | 'T', _, _ -> None (* a step of the wall clock: no operation of the application, no output *)
   | _ -> failwith ("op " ^ s)
 
 let is_frame s = String.length s > 0 && s.[0] = 'F'
